@@ -160,9 +160,16 @@ pub fn mod_n_inv(a: &U256) -> U256 {
 
 pub fn mod_n_from_hash(ha: &[u8]) -> U256 {
     let mut h = SM9_ONE;
+    // Ha = the first 40 bytes; a shorter input is read as the big-endian integer it encodes
+    let mut buf = [0u8; 40];
+    if ha.len() >= 40 {
+        buf.copy_from_slice(&ha[..40]);
+    } else {
+        buf[40 - ha.len()..].copy_from_slice(ha);
+    }
     let mut z: [u64; 5] = [0; 5];
     for i in 0..5 {
-        z[4 - i] = getu64(&ha[8 * i..]);
+        z[4 - i] = getu64(&buf[8 * i..]);
     }
 
     let z1 = [z[3], z[4], 0, 0];
